@@ -1,40 +1,76 @@
 import RadicaleProofs.DavError
 namespace Dav
 
+theorem putItemU_if_match (rights : Rights) (user : String) (p : Path) (body : Body) (pc : Coll) (target : Target)
+    (e : Option Nat) (nm : Bool) :
+    ∀ u, (putItemU rights user p body pc target e true nm).2 = some u →
+      ∃ parent c h it, target = .item parent c h it ∧ e = some it.cid := by
+  intro u
+  unfold putItemU
+  cases target with
+  | absent => simp only []; repeat' split
+              all_goals simp_all
+  | coll q c => simp only []; repeat' split
+                all_goals simp_all
+  | item parent c h it =>
+    simp only []
+    repeat' split
+    all_goals simp_all
+    all_goals (intro _; subst_vars; exact ⟨_, _, _, _, ⟨rfl, rfl, rfl, rfl⟩, rfl⟩)
+
+theorem putItemU_if_none_match (rights : Rights) (user : String) (p : Path) (body : Body) (pc : Coll) (target : Target)
+    (e : Option Nat) (raw : Bool) :
+    ∀ u, (putItemU rights user p body pc target e raw true).2 = some u → ∀ parent c h it, target ≠ .item parent c h it := by
+  intro u
+  unfold putItemU
+  cases target with
+  | absent => intro _ parent c h it hh; cases hh
+  | coll q c => intro _ parent c' h it hh; cases hh
+  | item parent c h it =>
+    simp only []
+    repeat' split
+    all_goals simp_all
+
+theorem putU_eq_item (cfg : Cfg) (rights : Rights) (user : String) (s : Store) (p : Path) (body : Body) (im raw nm imc)
+    (pc : Coll) (hpc : parentOk s p = some pc) (htag : pc.tag ≠ .none) (hnc : ∀ q c, resolve s p ≠ .coll q c) (u : Update)
+    (h : (putU cfg rights user s p body im raw nm imc).2 = some u) :
+    (putItemU rights user p body pc (resolve s p) im raw nm).2 = some u := by
+  unfold putU at h
+  split at h
+  · simp [forbiddenNA] at h
+  · split at h
+    · simp at h
+    · rw [hpc] at h
+      simp only at h
+      unfold putDispatch at h
+      have hw : isWhole (resolve s p) pc = false := by
+        unfold isWhole
+        cases hr : resolve s p with
+        | coll q c => exact absurd hr (hnc q c)
+        | absent => simp [htag]
+        | item a b c d => simp [htag]
+      simpa [hw] using h
+
 /-- a conditional PUT of an item that is carried out found exactly the ETag it asked for -/
 theorem put_if_match (cfg : Cfg) (rights : Rights) (user : String) (s : Store) (p : Path) (body : Body) (e : Option Nat) (nm : Bool) (imc)
     (pc : Coll) (hpc : parentOk s p = some pc) (htag : pc.tag ≠ .none) (hnc : ∀ q c, resolve s p ≠ .coll q c) :
     ∀ u, (putU cfg rights user s p body e true nm imc).2 = some u →
       ∃ parent c h it, resolve s p = .item parent c h it ∧ e = some it.cid := by
-  intro u
-  unfold putU
-  simp only [hpc]
-  cases hr : resolve s p with
-  | coll q c => exact absurd hr (hnc q c)
-  | absent =>
-    simp only [htag, decide_false, Bool.or_false, Bool.false_eq_true, if_false]
-    repeat' split
-    all_goals simp_all
-  | item parent c h it =>
-    simp only [htag, decide_false, Bool.or_false, Bool.false_eq_true, if_false]
-    repeat' split
-    all_goals simp_all
-    all_goals (intro _; exact ⟨_, _, _, _, ⟨rfl, rfl, rfl, rfl⟩, by omega⟩)
+  intro u hu
+  exact putItemU_if_match rights user p body pc (resolve s p) e nm u
+    (putU_eq_item cfg rights user s p body e true nm imc pc hpc htag hnc u hu)
 
 /-- `If-None-Match: *` lets a PUT through only when nothing is there -/
 theorem put_if_none_match (cfg : Cfg) (rights : Rights) (user : String) (s : Store) (p : Path) (body : Body) (e : Option Nat) (raw : Bool) (imc)
     (pc : Coll) (hpc : parentOk s p = some pc) (htag : pc.tag ≠ .none) (hnc : ∀ q c, resolve s p ≠ .coll q c) :
     ∀ u, (putU cfg rights user s p body e raw true imc).2 = some u → resolve s p = .absent := by
-  intro u
-  unfold putU
-  simp only [hpc]
+  intro u hu
+  have h1 := putItemU_if_none_match rights user p body pc (resolve s p) e raw u
+    (putU_eq_item cfg rights user s p body e raw true imc pc hpc htag hnc u hu)
   cases hr : resolve s p with
+  | absent => rfl
   | coll q c => exact absurd hr (hnc q c)
-  | absent => intro _; rfl
-  | item parent c h it =>
-    simp only [htag, decide_false, Bool.or_false, Bool.false_eq_true, if_false]
-    repeat' split
-    all_goals simp_all
+  | item parent c h it => exact absurd hr (h1 parent c h it)
 
 /-- a conditional DELETE of an item that is carried out found exactly the ETag it asked for -/
 theorem delete_if_match (cfg : Cfg) (rights : Rights) (user : String) (s : Store) (p : Path) (e : Option Nat)
